@@ -123,7 +123,127 @@ def decode_output(eng, o):
     return dict(address=list(addr.items), coin=coin, assets=assets, datum=datum)
 
 
+def subst_model(eng, v, m):
+    """deep copy of a model value with every z3 term replaced by its value under the model m"""
+    if isinstance(v, bool) or isinstance(v, int) or v is None:
+        return v
+    if is_sym(v):
+        x = m.eval(v, model_completion=True)
+        return z3.is_true(x) if z3.is_bool(x) else x.as_long()
+    if isinstance(v, Ref):
+        return subst_model(eng, v.get(), m)
+    if isinstance(v, BoxV):
+        return BoxV(subst_model(eng, v.v, m))
+    if isinstance(v, Agg):
+        return Agg(v.ty, v.variant, v.vidx, [subst_model(eng, f, m) for f in v.fields])
+    if isinstance(v, VecM):
+        return VecM([subst_model(eng, x, m) for x in v.items], v.kind)
+    if isinstance(v, SliceV):
+        return VecM([subst_model(eng, x, m) for x in v.items])
+    if isinstance(v, StrM):
+        return StrM([subst_model(eng, b, m) for b in v.bytes], v.owned)
+    if isinstance(v, MapM):
+        out = []
+        for k, p, x in v.entries:
+            p2 = subst_model(eng, p, m)
+            if p2:
+                out.append([subst_model(eng, k, m), True, subst_model(eng, x, m)])
+        return MapM(v.kind, out)
+    return v
+
+
+def _signed(x, bits=128):
+    return x - (1 << bits) if x >= (1 << (bits - 1)) else x
+
+
+def native_case(eng, tirj, args, inputs, fee, m):
+    """the concrete `pipeline` case of the native replay binary for the counterexample model m"""
+    import tirdump
+    cargs, cinputs = subst_model(eng, args, m), subst_model(eng, inputs, m)
+    a = {}
+    for k, p, v in cargs.entries:
+        d = tirdump.dump(eng, v, "ArgValue")
+        if isinstance(d, dict) and "Int" in d:
+            d = {"Int": _signed(int(d["Int"]))}
+        a[models.deref(k).text()] = d
+    ins = {}
+    for k, p, us in cinputs.entries:
+        lst = []
+        for u, pu, _ in models.deref(us).entries:
+            u = models.deref(u)
+            un = eng.tdef("Utxo", "struct")[1][2]
+            g = lambda f: models.deref(u.fields[un.index(f)])
+            assets = []
+            for ck, cp, cv in models.deref(g("assets").fields[0]).entries:
+                ck = models.deref(ck)
+                cls = "naked" if ck.variant == "Naked" else [list(models.deref(x).items) for x in ck.fields]
+                assets.append([cls, str(_signed(int(cv)))])
+            d = g("datum")
+            lst.append(dict(ref=tirdump.dump(eng, g("ref"), "UtxoRef"), address=[int(b) for b in g("address").items], assets_list=assets,
+                            datum=tirdump.dump(eng, d.fields[0], "Expression") if d.variant == "Some" else None))
+        ins[models.deref(k).text()] = lst
+    x = m.eval(fee, model_completion=True).as_long() if is_sym(fee) else int(fee)
+    return dict(cmd="pipeline", tir=tirj, args=a, inputs=ins, fee=x)
+
+
+def native_view(want):
+    """what the native binary observed: 'error' | dict(fee, ttl, start, outputs=[address, coin, assets])"""
+    if "body" in want and isinstance(want["body"], dict) and "outputs" in want["body"]:
+        b = want["body"]
+        outs = []
+        for o in b["outputs"]:
+            po = o.get("PostAlonzo", o)
+            val = po["value"]
+            coin, assets = (val["Coin"], []) if "Coin" in val else (val["Multiasset"][0], sorted([[pol, nm, int(q)] for pol, mm in val["Multiasset"][1].items() for nm, q in mm.items()]))
+            outs.append(dict(address=po["address"], coin=int(coin), assets=assets))
+        return dict(fee=int(b["fee"]), ttl=b.get("ttl"), start=b.get("validity_interval_start"), outputs=outs)
+    return "error"
+
+
+def predicted_view(eng, body, m):
+    """the same observation on the body engine M computed on this path, under the model m"""
+    if body is None:
+        return "error"
+    body = subst_model(eng, body, m)
+    bn = eng.tdef("TransactionBody", "struct")[1][2]
+    g = lambda f: models.deref(body.fields[bn.index(f)])
+    outs = []
+    for o in g("outputs").items:
+        d = decode_output(eng, o)
+        outs.append(dict(address=bytes(d["address"]).hex(), coin=int(d["coin"]), assets=sorted([[bytes(k[0]).hex(), bytes(k[1]).hex(), int(v)] for k, v in d["assets"].items()])))
+    opt = lambda v: None if v.variant != "Some" else int(v.fields[0])
+    return dict(fee=int(g("fee")), ttl=opt(g("ttl")), start=opt(g("validity_interval_start")), outputs=outs)
+
+
+REPLAYABLE = ("output lovelace differs", "output asset amount differs", "output address differs", "output count differs", "pipeline fails on a well-typed program",
+              "body fee differs", "ttl differs", "ttl dropped", "validity start differs", "slot_to_time of a negative slot accepted")
+
+
 def pipeline(ctx, tx, args, inputs, fee):
+    """apply / reduce / compile from MIR; registers the native replay of this very run: under a
+    counterexample model the concrete arguments go through the native binary, and what it observes
+    (failure, or fee / validity / outputs) must be what engine M computed on this path"""
+    eng = ctx.eng
+    state = dict(body=None, done=False)
+    tirj = getattr(ctx, "current_tirj", None)
+
+    def hook(m):
+        if tirj is None or not state["done"]:
+            return None
+        import native
+        want = native.run([native_case(eng, tirj, args, inputs, fee, m)])[0]
+        if "panic" in want:
+            return None
+        return native_view(want) == predicted_view(eng, state["body"], m)
+    if hasattr(ctx, "hname"):
+        ctx.replay_hook = hook
+    r = _pipeline(ctx, tx, args, inputs, fee)
+    state["done"] = True
+    state["body"] = r[0][0] if r[0] is not None else None
+    return r
+
+
+def _pipeline(ctx, tx, args, inputs, fee):
     eng = ctx.eng
     comp = compiler_value(eng)
     cur = tx
@@ -187,6 +307,8 @@ def run_program(ctx, prog, k):
         ctx.violation("[%s] the front end rejects a well-formed corpus program: %s" % (label, str(j)[:200]), shape="corpus program rejected by the front end")
         return
     tx = tirload.load(eng, j["t"], "Tx")
+    ctx.current_tirj = j["t"]
+    ctx.replayable_shapes = REPLAYABLE
     fee = ctx.sym_int("fee", "u64")
     eng.assume(z3.ULT(fee, 1 << 32))
     F = z3.ZeroExt(64, fee)
@@ -591,9 +713,65 @@ def s_p15(ctx, T, tx, fee, F, A, label):
             ctx.require(eng.to_bv(v, 128) == tag, "[%s] the metadata integer is the datum's `tag` field" % label, shape="metadata integer differs")
 
 
+def find_compiler_ops(v, out):
+    """every EvalCompiler node of a TIR value -> [(op name, operand)]"""
+    v = models.deref(v)
+    if isinstance(v, BoxV):
+        return find_compiler_ops(v.v, out)
+    if isinstance(v, Agg):
+        if v.ty.split("::")[-1] == "Expression" and v.variant == "EvalCompiler":
+            op = models.deref_box(v.fields[0])
+            out.append((op.variant, models.deref(op.fields[0]) if op.fields else None))
+        for f in v.fields:
+            find_compiler_ops(f, out)
+    elif isinstance(v, (VecM, SliceV)):
+        for x in v.items:
+            find_compiler_ops(x, out)
+    elif isinstance(v, MapM):
+        for k, p, x in v.entries:
+            find_compiler_ops(k, out); find_compiler_ops(x, out)
+    return out
+
+
+def s_p16(ctx, T, tx, fee, F, A, label):
+    """min_utxo(<named output>) names the output by its position in the transaction (an anonymous
+    and an optional output come before it); an optional output whose amount is empty is left out;
+    the second pass of a resolution (compiler ops evaluated against the first pass's body) still
+    finds the output min_utxo refers to"""
+    eng = ctx.eng
+    ops = find_compiler_ops(tx, [])
+    idx = sorted({expr_num(o) for n, o in ops if n == "ComputeMinUtxo"})
+    ctx.require(idx == [2], "[%s] min_utxo(change) lowers to the index of `change` among the transaction's outputs (got %s)" % (label, idx), shape="min_utxo refers to another output")
+    q, gift = sym(ctx, "q"), sym(ctx, "gift")
+    lov = sym(ctx, "src.lovelace")
+    eng.assume(z3.And(lov - F - q - gift >= 0, q >= 1))
+    args = amap([("q", intarg(T, q)), ("gift", intarg(T, gift)), ("alice", A("alice")), ("bob", A("bob"))])
+    inputs = amap([("src", utxo(T, 1, lov))])
+    body, _ = finish(ctx, tx, args, inputs, fee, label)
+    if body is None:
+        return
+    with_gift = eng.decide(gift != 0)
+    want = [dict(address=ADDR["bob"], coin=q)] + ([dict(address=ADDR["bob"], coin=gift)] if with_gift else []) + [dict(address=ADDR["alice"], coin=lov - F - q - gift)]
+    bn = check_outputs(ctx, body, want, label)
+    # second pass: the compiler ops are evaluated against the body of the first pass
+    comp = compiler_value(eng)
+    cn = eng.tdef("Compiler", "struct")[1][2]
+    comp.fields[cn.index("latest_tx_body")] = some(Agg("KeepRaw", None, 0, [body]))
+    cur = tx
+    for name, st in (("apply_args", lambda t: eng.call_fn(eng.fns["apply_args"], [t, ref_to_value(args)])), ("apply_fees", lambda t: eng.call_fn(eng.fns["apply_fees"], [t, fee])),
+                     ("compiler ops", lambda t: eng.call_fn(eng.find(trait="Node", self_ty="Tx", method="apply"), [t, ref_to_value(comp)]))):
+        r = models.deref(st(cur))
+        if r.variant != "Ok":
+            ctx.violation("[%s] second pass: stage %s fails (%s an empty optional output): %r" % (label, name, "without" if with_gift else "with", models.deref(r.fields[0])),
+                          shape="second pass fails: min_utxo of an output behind %s optional output" % ("a present" if with_gift else "an omitted"))
+            return
+        cur = r.fields[0]
+    ctx.require(True, "[%s] second pass evaluates min_utxo(change)" % label)
+
+
 SPECS = {"p01_int_arith": s_p01, "p02_asset_arith": s_p02, "p03_datum_spread": s_p03, "p04_mint_meta": s_p04,
          "p05_lists_concat": s_p05, "p06_locals_env": s_p06, "p07_time": s_p07, "p08_two_inputs": s_p08,
-         "p09_record_order": s_p09, "p10_negate_parens": s_p10, "p11_policy_contexts": s_p11, "p12_nested_access": s_p12, "p13_concat_mint_net": s_p13, "p14_time_back_meta": s_p14, "p15_datum_fields_elsewhere": s_p15}
+         "p09_record_order": s_p09, "p10_negate_parens": s_p10, "p11_policy_contexts": s_p11, "p12_nested_access": s_p12, "p13_concat_mint_net": s_p13, "p14_time_back_meta": s_p14, "p15_datum_fields_elsewhere": s_p15, "p16_min_utxo_optional": s_p16}
 
 
 def _h(name, fn, bounds, tier="quick", **kw):
